@@ -24,6 +24,9 @@ MODS = {
     # an ordinary task that declares a @task function while it RUNS: the function lands in the registry of pending task
     # functions after the collection is over
     "inner": "from pathlib import Path\nfrom pytask import task\ndef task_outer(produces=Path(__file__).parent / 'o.txt'):\n    @task\n    def late(produces=Path(__file__).parent / 'late.txt'):\n        produces.write_text('l')\n    produces.write_text('o')\n",
+    # a marker that one project registers and another one uses without registering it (strict markers)
+    "markreg": "import pytask\nfrom pathlib import Path\n@pytask.mark.nightly\ndef task_n(produces=Path(__file__).parent / 'n.txt'):\n    produces.write_text('n')\n",
+    "markuse": "import pytask\nfrom pathlib import Path\n@pytask.mark.nightly\ndef task_u(produces=Path(__file__).parent / 'u.txt'):\n    produces.write_text('u')\n",
     "empty": None,
     "decorated": "from pathlib import Path\nfrom pytask import task\n@task\ndef make(produces=Path(__file__).parent / 'd.txt'):\n    produces.write_text('d')\n",
 }
@@ -56,6 +59,9 @@ def measure():
 def one_build(proj, spec):
     import pytask
     kw = dict(spec.get("kwargs", {}))
+    if kw.pop("baddb", False):
+        from sqlalchemy.engine import make_url
+        kw["database_url"] = make_url("sqlite:////nonexistent_dir_for_verif/sub/db.sqlite3")      # cannot be created
     if kw.pop("memdb", False):
         from sqlalchemy.engine import make_url
         kw["database_url"] = make_url("sqlite://")       # in memory: nothing is remembered from build to build
@@ -70,7 +76,8 @@ def prepare(proj, kind):
     d = Path(proj) / kind
     if not d.exists():
         d.mkdir(parents=True)
-        (d / "pyproject.toml").write_text("[tool.pytask.ini_options]\n")
+        extra = {"markreg": "markers = {nightly = 'runs at night'}\n", "markuse": "strict_markers = true\n"}.get(kind, "")
+        (d / "pyproject.toml").write_text("[tool.pytask.ini_options]\n" + extra)
         if MODS[kind] is not None:
             (d / f"task_{kind}.py").write_text(MODS[kind])
 
